@@ -8,7 +8,7 @@ from vf.core.result import Res
 from vf.gen.ir import E, source, walk
 from vf.gen.programs import Gen
 from vf.gen.twins import early_names, local_definitions, rename_local
-from vf.progcheck import Accept, Reject, Unspec, blocks_equal, model_of, run_ir
+from vf.progcheck import same_output, Accept, Reject, Unspec, blocks_equal, model_of, run_ir
 
 LEVEL = "exploration"
 RULE = (
@@ -339,7 +339,7 @@ def check_program(res: Res, p: dict, rng: random.Random) -> None:
             with Scratch(files_d or {}):
                 rd = run_program(dumping, src_d)
             res.count("runs_with_dump_symbols")
-            if not rd.ok or [(a, bytes(b)) for a, b in rd.blocks] != [(a, bytes(b)) for a, b in r0.blocks] or sorted(rd.labels) != sorted(r0.labels):
+            if not rd.ok or not same_output(rd.blocks, r0.blocks) or sorted(rd.labels) != sorted(r0.labels):
                 d = blocks_equal([(a, b) for a, b in r0.blocks], rd.blocks) if rd.ok else f"rejected: {rd.err_kind}: {rd.err_text[:160]}"
                 res.violate("dump-symbols-changes-output", f"assembling with the symbol dump switched on changes the result: {d or 'label values differ'}", wit)
                 return
@@ -353,7 +353,7 @@ def check_program(res: Res, p: dict, rng: random.Random) -> None:
         twin = rename_local(p["prog"], s, n, n + "_rn")
         r1, src1, _ = run_ir(dict(p, prog=twin))
         res.count("rename_twins")
-        if not r1.ok or [(a, bytes(b)) for a, b in r1.blocks] != [(a, bytes(b)) for a, b in r0.blocks]:
+        if not r1.ok or not same_output(r1.blocks, r0.blocks):
             d = blocks_equal([(a, b) for a, b in r0.blocks], r1.blocks) if r1.ok else f"twin rejected: {r1.err_kind}: {r1.err_text[:160]}"
             res.violate("rename-changes-output", f"renaming the scope-local name {n} changes the output: {d}", dict(wit, twin_src=src1, renamed=n))
             return
@@ -390,7 +390,7 @@ def check_program(res: Res, p: dict, rng: random.Random) -> None:
 
             r3, src3, _ = run_ir(dict(p, prog=swap(p["prog"])))
             res.count("parameter_rename_twins")
-            if not r3.ok or [(a, bytes(b)) for a, b in r3.blocks] != [(a, bytes(b)) for a, b in r0.blocks]:
+            if not r3.ok or not same_output(r3.blocks, r0.blocks):
                 d = blocks_equal([(a, b) for a, b in r0.blocks], r3.blocks) if r3.ok else f"twin rejected: {r3.err_kind}: {r3.err_text[:160]}"
                 res.violate("rename-changes-output", f"renaming the parameter {pname} of macro {mdef['n']} changes the output: {d}", dict(wit, twin_src=src3, renamed=pname))
                 return
@@ -411,7 +411,7 @@ def check_program(res: Res, p: dict, rng: random.Random) -> None:
         r4, src4, _ = run_ir(dict(p, prog=respell(p["prog"], ren)))
         res.count("respelling_twins")
         res.count("names_respelled", len(ren))
-        if not r4.ok or [(a, bytes(b)) for a, b in r4.blocks] != [(a, bytes(b)) for a, b in r0.blocks]:
+        if not r4.ok or not same_output(r4.blocks, r0.blocks):
             d = blocks_equal([(a, b) for a, b in r0.blocks], r4.blocks) if r4.ok else f"twin rejected: {r4.err_kind}: {r4.err_text[:160]}"
             res.violate("rename-changes-output", f"re-spelling every identifier consistently changes the output: {d}", dict(wit, twin_src=src4, renamed=ren))
             return
@@ -429,7 +429,7 @@ def check_program(res: Res, p: dict, rng: random.Random) -> None:
         twin, fresh = ins
         r2, src2, _ = run_ir(dict(p, prog=twin))
         res.count("insertion_twins")
-        if not r2.ok or [(a, bytes(b)) for a, b in r2.blocks] != [(a, bytes(b)) for a, b in r0.blocks]:
+        if not r2.ok or not same_output(r2.blocks, r0.blocks):
             d = blocks_equal([(a, b) for a, b in r0.blocks], r2.blocks) if r2.ok else f"twin rejected: {r2.err_kind}: {r2.err_text[:160]}"
             res.violate("insertion-changes-output", f"adding the unrelated definition {fresh} inside another scope changes the output: {d}", dict(wit, twin_src=src2))
             return
